@@ -243,6 +243,8 @@ def run(chk, w):
         bad = None
         for c in qcalls:
             p = rules.exists_path(f, c, lambda x: x.id == c0.id, lambda x: x.id in empties)
+            if p and not rules._exists_path_sensitive(f, c, lambda x: x.id == c0.id, lambda x: x.id in empties, False):
+                p = None        # only through contradictory values of a restart flag (`if (restart) drain; ... while (restart)`)
             if p:
                 bad = (c, p)
         if bad:
